@@ -189,7 +189,11 @@ def run_match(ctx, cov, d, cases, meta, rng, workers):
                 return "unmatched:name-shorter-than-4"
             if c["special4"]:
                 return "unmatched:wildcard-in-first-4-bytes"
+            if has_escape(c["text"]):
+                return "unmatched:backslash-escape-in-glob-pattern"
             return f"unmatched:{c['text']}"
+        if has_escape(c["text"]):
+            return "misplaced:backslash-escape-in-glob-pattern"
         return f"misplaced:{c['text']}"
 
     def do_batch(ib):
